@@ -144,7 +144,9 @@ func vfC11(w *vfWorld) {
 	keys := vfTicketKeys(w, b, cfg)
 	cs.DelFault = "none"
 	if w.redis != nil {
-		switch t.Weighted("c11.delfault", 6, 1, 1, 1) {
+		switch t.Weighted("c11.delfault", 6, 1, 1, 1, 1) {
+		case 4:
+			cs.DelFault = "outage" // the store is out of reach for the whole of the sign-out request: nothing can be read, locked or deleted
 		case 1:
 			cs.DelFault = "err-before"
 		case 2:
@@ -153,10 +155,13 @@ func vfC11(w *vfWorld) {
 			cs.DelFault = "timeout"
 		}
 		if cs.DelFault != "none" {
-			kind := map[string]vfRedisFaultKind{"err-before": vfRFErrBefore, "err-after": vfRFErrAfter, "timeout": vfRFTimeout}[cs.DelFault]
+			kind := map[string]vfRedisFaultKind{"err-before": vfRFErrBefore, "err-after": vfRFErrAfter, "timeout": vfRFTimeout, "outage": vfRFErrBefore}[cs.DelFault]
 			w.redis.Plan = func(ev *vfRedisEvent) vfRedisFault {
 				if ev.Name == "DEL" {
 					return vfRedisFault{Kind: kind}
+				}
+				if cs.DelFault == "outage" {
+					return vfRedisFault{Kind: vfRFErrBefore}
 				}
 				return vfRedisFault{}
 			}
